@@ -22,8 +22,13 @@ func main() {
 		overlay  = flag.String("overlay", "", "JSON file {abs filename: contents} applied in memory (self test)")
 		list     = flag.Bool("list", false, "list obligations instead of judging")
 		graph    = flag.String("graph", "vta", "call graph: vta|cha")
+		debugFn  = flag.String("debug", "", "pkg:Func — evaluate symbolically and dump returns and heap (development aid)")
 	)
 	flag.Parse()
+	if *debugFn != "" {
+		debugDump(*repo, *debugFn)
+		return
+	}
 	seed := 0
 	if s := os.Getenv("VERIF_SEED"); s != "" {
 		seed, _ = strconv.Atoi(s)
@@ -116,4 +121,49 @@ func runRules(prop *Property, p *Prog, rep *Report) {
 			rule.Run(p, rep)
 		}()
 	}
+}
+
+func debugDump(repo, spec string) {
+	p, err := Load(repo, nil)
+	if err != nil {
+		fmt.Println(err)
+		os.Exit(2)
+	}
+	var pkg, name string
+	for i := 0; i < len(spec); i++ {
+		if spec[i] == ':' {
+			pkg, name = spec[:i], spec[i+1:]
+			break
+		}
+	}
+	fn := p.Func(pkg, name)
+	if fn == nil {
+		fmt.Println("no such function")
+		os.Exit(2)
+	}
+	in := NewInterp(p)
+	in.Symbolic = true
+	for _, kv := range flag.Args() {
+		for i := 0; i < len(kv); i++ {
+			if kv[i] == '=' {
+				var n int64
+				if _, err := fmt.Sscanf(kv[i+1:], "%d", &n); err == nil {
+					in.PathBind[kv[:i]] = int64Val(n)
+				} else {
+					in.PathBind[kv[:i]] = strVal(kv[i+1:])
+				}
+			}
+		}
+	}
+	out := in.Run(fn, defaultArgs(fn), nil)
+	fmt.Println("canReturn", out.CanReturn, "canPanic", out.CanPanic, "ret", out.Ret)
+	var keys []string
+	for k := range in.heap {
+		keys = append(keys, k)
+	}
+	sort.Strings(keys)
+	for _, k := range keys {
+		fmt.Printf("  %s = %s\n", k, in.heap[k])
+	}
+	fmt.Println("stuck", in.Stuck)
 }
